@@ -6,7 +6,7 @@ import numpy as np
 from .. import core, gen, smooth
 
 RULE = ("ws2dgu / ws2dpgu on structured series (lengths 4..72 for the exact side, to 400 at Float), lambda in 10^[-3,5], p in (0,1), data "
-        "containing exact zeros: compiled band vs (a) Lean model at Float bit for bit, (b) half-even rounding of the EXACT rational curve "
+        "containing exact zeros, plus long series with extreme p and low-amplitude series (|y| <= 5) with stiff curves: compiled band vs (a) Lean model at Float bit for bit, (b) half-even rounding of the EXACT rational curve "
         "computed by the Lean model at Rat (the curve theorem gu_normal_eq / ws2d_normal_eq is about), one unit tolerated only where the exact "
         "curve is within 1e-6 of a half-integer; whits accessor with s, sg (incl. -inf cells), p, three dimension orders vs per-pixel kernel "
         "calls. Non-trivial = distinct (variant, series, mask, lambda, p) with >= 2 valid cells and lambda != 0.")
@@ -58,6 +58,21 @@ def run(ctx: core.Ctx):
         xrefs.append((arr, nd, prm, band))
         ctx.case(("pgu-extreme", tuple(arr), nd, prm["lam"], prm["p"]), sample=dict(variant="pgu", n=n, p=prm["p"], lam=prm["lam"]))
         ctx.count("pgu extreme p")
+    # low-amplitude series (|y| <= 5) with a stiff curve: late passes move the curve by less than one unit, so the stop criterion
+    # (no change of the curve at all) and the starting curve (zero) decide single cells of the band
+    for k in range(ctx.budget(240, 2000)):
+        n = rng.choice([5, 6, 8, 10, 12, 16])
+        amp = rng.choice([1, 2, 3, 5])
+        y = [rng.randint(-amp, amp) for _ in range(n)]
+        m = [True] * n if k % 3 else gen.gaps(rng, n, min_valid=3)
+        prm = dict(lam=float(rng.choice([10, 30, 100, 300, 1000, 10000])), p=rng.choice([0.1, 0.9, 0.05, 0.95, 0.3, 0.7]))
+        nd = -3000
+        arr = smooth.encode(y, m, nd)
+        band, _ = smooth.call("pgu", arr, nd, prm)
+        xlines.append(smooth.line("pgu", arr, nd, prm))
+        xrefs.append((arr, nd, prm, band))
+        ctx.case(("pgu-lowamp", tuple(arr), prm["lam"], prm["p"]), sample=dict(variant="pgu", y=[int(v) for v in arr], p=prm["p"], lam=prm["lam"]))
+        ctx.count("pgu low amplitude")
     for (arr, nd, prm, band), a in zip(xrefs, ctx.driver.ask(xlines)):
         mm = smooth.parse_answer(a)
         if mm[0] == "curve" and smooth.in_int16(mm[1]) and not np.array_equal(np.array(mm[2]), band.astype(float)):
